@@ -1,7 +1,18 @@
 //! Verification hooks (feature `verif-hooks`). Additive only: nothing here is
 //! compiled, and no behaviour changes, unless the feature is enabled.
-use crate::story::Story;
-use std::cell::Cell;
+use crate::{
+    container::Container,
+    json::json_write,
+    object::{Object, RTObject},
+    path::Path,
+    story::Story,
+};
+use std::{
+    cell::Cell,
+    collections::hash_map::DefaultHasher,
+    hash::{Hash, Hasher},
+    rc::Rc,
+};
 
 thread_local! {
     static CONSTRUCTION_FUEL: Cell<Option<u64>> = const { Cell::new(None) };
@@ -48,5 +59,175 @@ impl Story {
     /// `true` while a time-limited continue has been started and not finished.
     pub fn verif_async_active(&self) -> bool {
         self.async_continue_active
+    }
+}
+
+/// Plain facts about one runtime object of the loaded story (content audit). The
+/// hook reports what the runtime's own primitives answer; judging them is up to the
+/// caller.
+#[derive(Debug, Clone)]
+pub struct VerifObj {
+    /// text of the path the runtime reports for the object
+    pub path: String,
+    pub is_container: bool,
+    /// reached through named-only content (not through indexed content)
+    pub named_only: bool,
+    pub depth: usize,
+    /// the object as the runtime's JSON writer renders it (containers: name, flags, sizes)
+    pub detail: String,
+    /// looking the reported path up from the root returns this very object ...
+    pub resolves_to_self: bool,
+    /// ... and says so without approximation
+    pub approximate: bool,
+    /// parsing the path's text gives a path equal to the reported one
+    pub reparse_eq: bool,
+    /// ... with an equal hash
+    pub reparse_hash_eq: bool,
+}
+
+/// Facts about the relative path from object `i` to object `j` of the audit listing.
+#[derive(Debug, Clone)]
+pub struct VerifRel {
+    pub relative_text: String,
+    pub is_relative: bool,
+    /// parse(text(rel)) == rel
+    pub reparse_eq: bool,
+    /// parse(text(rel)) is still relative
+    pub reparse_relative_kept: bool,
+    /// hash(parse(text(rel))) == hash(rel)
+    pub reparse_hash_eq: bool,
+    /// resolving rel from object i reaches object j, without approximation
+    pub resolves_to_target: bool,
+    /// path(i) + rel == path(j)   (only meaningful when i is a container)
+    pub append_eq: bool,
+    pub compact_text: String,
+    /// the compact path string, parsed and resolved from i, reaches j
+    pub compact_resolves_to_target: bool,
+}
+
+fn hash_of(p: &Path) -> u64 {
+    let mut h = DefaultHasher::new();
+    p.hash(&mut h);
+    h.finish()
+}
+
+fn same_object(a: &Rc<dyn RTObject>, b: &Rc<dyn RTObject>) -> bool {
+    std::ptr::eq(
+        a.as_ref() as *const dyn RTObject as *const (),
+        b.as_ref() as *const dyn RTObject as *const (),
+    )
+}
+
+impl Story {
+    fn verif_collect(&self) -> Vec<(Rc<dyn RTObject>, bool, usize)> {
+        fn walk(
+            c: &Rc<Container>,
+            named_only: bool,
+            depth: usize,
+            out: &mut Vec<(Rc<dyn RTObject>, bool, usize)>,
+        ) {
+            out.push((c.clone() as Rc<dyn RTObject>, named_only, depth));
+            for o in c.content.iter() {
+                match o.clone().into_any().downcast::<Container>() {
+                    Ok(sub) => walk(&sub, false, depth + 1, out),
+                    Err(_) => out.push((o.clone(), false, depth + 1)),
+                }
+            }
+            let named = c.get_named_only_content();
+            let mut keys: Vec<&String> = named.keys().collect();
+            keys.sort();
+            for k in keys {
+                walk(&named[k], true, depth + 1, out);
+            }
+        }
+        let mut out = Vec::new();
+        walk(&self.get_main_content_container(), false, 0, &mut out);
+        out
+    }
+
+    /// Every object of the story (indexed content first, then named-only content by
+    /// name, depth first) with the facts described on `VerifObj`.
+    pub fn verif_audit(&self) -> Vec<VerifObj> {
+        let root = self.get_main_content_container();
+        self.verif_collect()
+            .into_iter()
+            .map(|(o, named_only, depth)| {
+                let path = Object::get_path(o.as_ref());
+                let text = path.to_string();
+                let found = root.content_at_path(&path, 0, -1);
+                let reparsed = Path::new_with_components_string(Some(&text));
+                let is_container = o.as_any().is::<Container>();
+                let detail = match o.clone().into_any().downcast::<Container>() {
+                    Ok(c) => format!(
+                        "container name={:?} visits={} turns={} start_only={} content={} named={}",
+                        c.name,
+                        c.visits_should_be_counted,
+                        c.turn_index_should_be_counted,
+                        c.counting_at_start_only,
+                        c.content.len(),
+                        c.named_content.len()
+                    ),
+                    Err(_) => match json_write::write_rtobject(o.clone()) {
+                        Ok(j) => j.to_string(),
+                        Err(e) => format!("unwritable: {e}"),
+                    },
+                };
+                VerifObj {
+                    path: text,
+                    is_container,
+                    named_only,
+                    depth,
+                    detail,
+                    resolves_to_self: same_object(&found.obj, &o),
+                    approximate: found.approximate,
+                    reparse_eq: reparsed == path,
+                    reparse_hash_eq: hash_of(&reparsed) == hash_of(&path),
+                }
+            })
+            .collect()
+    }
+
+    /// Relative-path facts between the `i`-th and `j`-th object of `verif_audit()`.
+    pub fn verif_relative_probe(&self, i: usize, j: usize) -> Option<VerifRel> {
+        self.verif_relative_probes(&[(i, j)]).pop().flatten()
+    }
+
+    /// Batch form of `verif_relative_probe`.
+    pub fn verif_relative_probes(&self, pairs: &[(usize, usize)]) -> Vec<Option<VerifRel>> {
+        let objs = self.verif_collect();
+        pairs
+            .iter()
+            .map(|(i, j)| Self::verif_probe_pair(&objs, *i, *j))
+            .collect()
+    }
+
+    fn verif_probe_pair(
+        objs: &[(Rc<dyn RTObject>, bool, usize)],
+        i: usize,
+        j: usize,
+    ) -> Option<VerifRel> {
+        let (from, _, _) = objs.get(i)?.clone();
+        let (to, _, _) = objs.get(j)?.clone();
+        let from_path = Object::get_path(from.as_ref());
+        let to_path = Object::get_path(to.as_ref());
+        let rel = Object::convert_path_to_relative(&from, &to_path);
+        let text = rel.to_string();
+        let reparsed = Path::new_with_components_string(Some(&text));
+        let resolved = Object::resolve_path(from.clone(), &rel);
+        let compact = Object::compact_path_string(from.clone(), &to_path);
+        let compact_path = Path::new_with_components_string(Some(&compact));
+        let compact_resolved = Object::resolve_path(from.clone(), &compact_path);
+        Some(VerifRel {
+            relative_text: text,
+            is_relative: rel.is_relative(),
+            reparse_eq: reparsed == rel,
+            reparse_relative_kept: reparsed.is_relative() == rel.is_relative(),
+            reparse_hash_eq: hash_of(&reparsed) == hash_of(&rel),
+            resolves_to_target: same_object(&resolved.obj, &to) && !resolved.approximate,
+            append_eq: from_path.path_by_appending_path(&rel) == to_path,
+            compact_text: compact,
+            compact_resolves_to_target: same_object(&compact_resolved.obj, &to)
+                && !compact_resolved.approximate,
+        })
     }
 }
